@@ -33,7 +33,7 @@ SCHEMA = {
     "a": [
         ("style", 8),
         ("typed", 2),
-        ("at", 2),
+        ("at", 3),
         ("exit", 16),
         ("sf", progs.N_FS),
         ("ef", progs.N_FS),
